@@ -166,7 +166,7 @@ pub fn gen(tier: &str, seed: u64, out: &mut dyn FnMut(Value)) {
         }
     }
     // whole-text mutations: byte flips / deletions / insertions / splices in single documents
-    let n = if thorough { 20000 } else { 1500 };
+    let n = if thorough { 100000 } else { 6000 };
     for _ in 0..n {
         let d = *rng.pick(&docs);
         let t = format!("---{}", mutate_bytes(&mut rng, d));
@@ -203,7 +203,7 @@ pub fn gen(tier: &str, seed: u64, out: &mut dyn FnMut(Value)) {
     for t in tdocs {
         out(json!({"op": "load_text", "templates": t, "rules": "---\nname: r\nmatches:\n  $a: .x == '{{a}}'\n", "tag": "template document", "nt": true}));
     }
-    let n = if thorough { 5000 } else { 500 };
+    let n = if thorough { 25000 } else { 2000 };
     for _ in 0..n {
         let t = mutate_bytes(&mut rng, "tpl_a: 'C:\\\\Windows\\\\(system32|syswow64)'\ntpl_b: \"{{tpl_a}}\"\n'a b': \"x\"\n");
         let r = mutate_bytes(&mut rng, "---\nname: r\nmatches:\n  $a: .x ~= '{{tpl_a}}\\\\cmd\\.exe'\n  $b: .y == '{{a b}}'\ncondition: $a and $b\n");
@@ -221,7 +221,7 @@ pub fn gen(tier: &str, seed: u64, out: &mut dyn FnMut(Value)) {
         out(json!({"op": "parse_cond", "s": c, "tag": "non-ASCII condition", "nt": true}));
     }
     // field paths (public `XPath::parse`): random strings over a wide alphabet
-    let n = if thorough { 50000 } else { 5000 };
+    let n = if thorough { 250000 } else { 20000 };
     for _ in 0..n {
         let k = rng.below(9);
         let pool = ['.', '"', 'a', 'Z', '0', '_', '-', ' ', '@', '\'', '\u{e9}', '\n', '\0', '/', '\\'];
